@@ -71,6 +71,9 @@ def check_config(cfg, out):
                                  "error": repr(e)[:300]})
         return
     if items is None:
+        # the library resolves this name (lib_table found it), so the generator owes it samples and transition pairs
+        out["witnesses"].append({"key": "c19:zone-known-to-library-gets-no-items", "what": "the generator produced nothing for a zone its library resolves",
+                                 "config": cfg})
         return
     c["configs"] = c.get("configs", 0) + 1
     c["items"] = c.get("items", 0) + len(items)
